@@ -84,6 +84,10 @@ func main() {
 		instrumentMain(os.Args[2:])
 		return
 	}
+	if len(os.Args) >= 2 && os.Args[1] == "prune" {
+		pruneMain(os.Args[2:])
+		return
+	}
 	if len(os.Args) < 2 || os.Args[1] != "run" {
 		fmt.Fprintln(os.Stderr, "usage: gosmt run [flags]")
 		os.Exit(2)
